@@ -25,8 +25,14 @@ def _reexec_with_fixed_hashseed():
     # VERIF_HASHSEED is only used by the determinism self-test to show that
     # digests do not depend on str hashing
     want = os.environ.get("VERIF_HASHSEED", "0")
-    if os.environ.get("PYTHONHASHSEED") != want:
-        env = dict(os.environ, PYTHONHASHSEED=want)
+    # numerical libraries stay single-threaded: the runs are spread over a fork pool, and
+    # forking a process that holds a BLAS / OpenMP thread pool can leave a worker waiting
+    # for a lock no thread of it owns (seen once as a hung check: workers asleep on a
+    # futex, 16 BLAS threads each); it also avoids 16 x 16 threads on 16 cores
+    single = {"OPENBLAS_NUM_THREADS": "1", "OMP_NUM_THREADS": "1", "MKL_NUM_THREADS": "1",
+              "NUMEXPR_NUM_THREADS": "1", "VECLIB_MAXIMUM_THREADS": "1"}
+    if os.environ.get("PYTHONHASHSEED") != want or any(os.environ.get(k) != v for k, v in single.items()):
+        env = dict(os.environ, PYTHONHASHSEED=want, **single)
         os.execve(sys.executable, [sys.executable] + sys.argv, env)
 
 
@@ -166,7 +172,7 @@ def run_property(prop, tier, scale, workers):
     n_self = 8 if tier == "quick" else 32
     plan = [(m, range(n_self)) for m in machines]
     a = engine.run_batch(machines, plan, verif_seed, workers=1)
-    b = engine.run_batch(machines, plan, verif_seed, workers=min(workers, 4))
+    b = engine.run_batch(machines, plan, verif_seed, workers=min(workers, 4), batch_limit=600)
     da = {(r["machine"], r["idx"]): r.get("digest") for r in a["results"]}
     db = {(r["machine"], r["idx"]): r.get("digest") for r in b["results"]}
     det_mismatch = sorted(k for k in da if da[k] != db.get(k))
@@ -277,6 +283,24 @@ def run_property(prop, tier, scale, workers):
     return exit_code
 
 
+def _arm_watchdog(seconds):
+    """Last line of defence against a hung pool: never exit 0, never hang for good."""
+    import signal
+
+    def _fire(signum, frame):
+        sys.stdout.write("HARNESS-ERROR: global wall-clock limit of %d s exceeded\n" % seconds)
+        sys.stdout.flush()
+        try:
+            import multiprocessing
+            for p in multiprocessing.active_children():
+                p.kill()
+        except Exception:
+            pass
+        os._exit(2)
+    signal.signal(signal.SIGALRM, _fire)
+    signal.alarm(int(seconds))
+
+
 def main():
     ap = argparse.ArgumentParser()
     ap.add_argument("--property")
@@ -299,6 +323,7 @@ def main():
     if not args.property:
         ap.error("--property, --replay or --selftest required")
     try:
+        _arm_watchdog(int(os.environ.get("VERIF_WATCHDOG_S", 3000 if args.tier == "quick" else 8 * 3600)))
         code = run_property(args.property, args.tier, args.runs_scale, args.workers)
     except SystemExit:
         raise
